@@ -393,6 +393,34 @@ pub proof fn lemma_printable_injective<V>(out: Map<String, Vec<V>>, report: Map<
     }
 }
 
+/// C11 read back for the ordinary case (pairwise different printable texts, e.g. all paths valid Unicode): what V8
+/// hands to the writer maps the text of each file to exactly the serialised list of that file's violations.
+pub proof fn lemma_printed_report_injective(v: SpecViolations, rep: Map<PathBuf, Vec<serde_json::Value>>, out: Map<String, Vec<serde_json::Value>>)
+    requires
+        report_is(rep, v),
+        is_printable(out, rep),
+        path_text_injective_on(rep),
+    ensures
+        forall|s: String| #[trigger] out.contains_key(s) <==> exists|f: PathBuf| v.contains_key(f) && #[trigger] path_text(f) == s@, // [V8.lemma.printed_keys_are_the_texts_of_the_files_with_violations]
+        forall|f: PathBuf, s: String| v.contains_key(f) && #[trigger] path_text(f) == #[trigger] s@ ==> out.contains_key(s) && list_serialised(out[s]@, v[f]), // [V8.lemma.each_files_violations_once_under_its_printed_path]
+{
+    lemma_printable_injective(out, rep);
+    assert forall|s: String| #[trigger] out.contains_key(s) <==> exists|f: PathBuf| v.contains_key(f) && #[trigger] path_text(f) == s@ by {
+        if out.contains_key(s) {
+            let f = choose|f: PathBuf| rep.contains_key(f) && #[trigger] path_text(f) == s@;
+            assert(v.contains_key(f) && path_text(f) == s@);
+        }
+        if exists|f: PathBuf| v.contains_key(f) && #[trigger] path_text(f) == s@ {
+            let f = choose|f: PathBuf| v.contains_key(f) && #[trigger] path_text(f) == s@;
+            assert(rep.contains_key(f) && path_text(f) == s@);
+        }
+    }
+    assert forall|f: PathBuf, s: String| v.contains_key(f) && #[trigger] path_text(f) == #[trigger] s@ implies out.contains_key(s) && list_serialised(out[s]@, v[f]) by {
+        assert(rep.contains_key(f));
+        assert(list_serialised(rep[f]@, v[f]));
+    }
+}
+
 #[verifier::loop_isolation(false)]
 //@unit id=V8p file=src/main.rs fn=with_printable_paths ret=r optional=1
 //@contract
@@ -432,10 +460,10 @@ verif_map_extend(&mut $m, verif_path_text(&$p), $v)
             assert forall|s: String| #[trigger] result@.contains_key(s) <==> exists|i: int| 0 <= i < n + 1 && path_text((#[trigger] ents[i]).0) == s@ by { // [V8p.step.text_of_this_file_becomes_a_key]
                 if result0.contains_key(s) {
                     let i = choose|i: int| 0 <= i < n && path_text((#[trigger] ents[i]).0) == s@;
-                    assert(0 <= i < n + 1 && path_text(ents[i].0) == s@);
+                    assert(0 <= i < n + 1 && path_text(ents[i].0) == s@); // [V8p.step.text_of_this_file_becomes_a_key]
                 }
                 if s@ == t {
-                    assert(0 <= n < n + 1 && path_text(ents[n].0) == s@);
+                    assert(0 <= n < n + 1 && path_text(ents[n].0) == s@); // [V8p.step.text_of_this_file_becomes_a_key]
                 }
             }
             assert forall|s: String| #[trigger] result@.contains_key(s) implies result@[s]@ == texts_concat(ents, s@, n + 1) by { // [V8p.step.list_appended_under_its_text_nothing_else_changed]
@@ -443,10 +471,10 @@ verif_map_extend(&mut $m, verif_path_text(&$p), $v)
                     if !result0.contains_key(s) {
                         lemma_texts_none(ents, s@, n);
                     }
-                    assert(result@[s]@ =~= texts_concat(ents, s@, n) + ents[n].1@);
+                    assert(result@[s]@ =~= texts_concat(ents, s@, n) + ents[n].1@); // [V8p.step.list_appended_under_its_text_nothing_else_changed]
                 } else {
-                    assert(result0.contains_key(s));
-                    assert(result@[s] == result0[s]);
+                    assert(result0.contains_key(s)); // [V8p.step.list_appended_under_its_text_nothing_else_changed]
+                    assert(result@[s] == result0[s]); // [V8p.step.list_appended_under_its_text_nothing_else_changed]
                 }
             }
         }
@@ -513,6 +541,7 @@ verif_map_extend(&mut $m, verif_path_text(&$p), $v)
     }
     let ghost rep = diagnostics@;
 //@macro rule=E1 name=writeln to=<<verif_writeln(&mut stderr)>>
+//@macro rule=E1 name=anyhow to=<<anyhow::verif_err()>> optional=1
 //@edit rule=ghost before=<<process::exit(1)>>
         // the only call of `exit(1)`: reachable only if an error-severity violation exists
         assert(exists_error(viol)); // [V8.post.exit1_only_if_error]
@@ -552,6 +581,7 @@ fn main_run_and_report(context: ValidationContext, sync_validators: Vec<Box<dyn 
     broadcast use axiom_pathbuf_key_model;
 //@edit rule=ghost after=<<let violations = validators::run(Arc::new(context), sync_validators, async_validators)?;>>
     proof { lemma_vmap(violations@); }
+//@macro rule=E1 name=anyhow to=<<anyhow::verif_err()>> optional=1
 //@end
 
 } // verus!
